@@ -7,7 +7,9 @@ the returned solution dictionary is compared with
   (i)  the property's own predicates evaluated independently (weighted-quantile rule written out in plain Python,
        greatest-weight sample, weighted mean, forward model re-evaluated on a second model at the MAP / median,
        derived values re-evaluated sample by sample);
-  (ii) the Lean model (`Posterior.quantileCorner / summary / argmaxFirst / wmean / storeOutput / restoreOrder`).
+  (ii) the Lean model (`Posterior.quantileCorner / summary / argmaxFirst / wmean / storeOutput / restoreOrder`, and
+       `Posterior.modelPoint` for the values `Optimizer.update_model` hands the model: each fitted parameter through the
+       prior() of its own prior object, built-in or user-defined).
 """
 import io
 import math
@@ -25,7 +27,10 @@ RULE = ('sample sets of 1-500 samples, 1-5 dimensions, weights: random / all equ
         '(isothermal / NPoint / Guillot; fitted subsets: as generated / planet mass without the radius (disable_fit) / mass and '
         'radius / radius switched off); ArraySpectrum observations with 1-2 bins reaching beyond an end of the native grid '
         '(partly covered bins) in half of the cases; real-model references are forward models CONSTRUCTED at the MAP / the median '
-        '/ every sample; sample rows the forward model rejects are redrawn. distinct non-trivial = distinct (stream, sampler, weight kind, size class, '
+        '/ every sample; sample rows the forward model rejects are redrawn; quota: 1-2 fitted parameters with a USER-DEFINED '
+        'prior (Uniform subclass overriding prior(): natural-log space exp(x), scaled units a*x+b; declared linear or log '
+        'mode) set with set_prior, all samplers, both models; Optimizer.update_model on the MAP / median / two samples read back '
+        'through the parameters\' getters. distinct non-trivial = distinct (stream, sampler, weight kind, size class, '
         'ndim, #derived, #modes) with more than one sample of positive weight')
 ASSUMPTIONS = ['np.argsort modelled as a stable insertion sort: exact for distinct values; for tied values the comparison is '
                'made on the order numpy actually produced (result is compared up to the order inside tie groups)',
@@ -40,6 +45,9 @@ ASSUMPTIONS = ['np.argsort modelled as a stable insertion sort: exact for distin
                '"binned to the observation" = FluxBinner.bindown as modelled by C05 (Binning.fluxBindown / overlapMeanSpec, driver_c05): '
                'in each observation bin the overlap-weighted mean of the native spectrum over the part of the bin the native grid covers '
                '(native bins = centre +- width/2, widths from the mid-points); bins the native grid does not reach are not judged',
+               '"evaluated at the MAP / median / a sample" = the model whose fitted parameter i holds prior_i.prior(v_i), the map '
+               'of that parameter\'s own prior object (Posterior.modelPoint; x or 10**x for the built-in classes, the user\'s own '
+               'map for a user-defined Prior subclass)',
                'a real forward model constructed at given values (constructor arguments, c06.tm_at / build_tm) is the forward model '
                '"evaluated at" them',
                'source tie of the whole store_nest_solutions / store_polychord_solutions: file contents are inputs '
@@ -416,15 +424,103 @@ def fit_order(spec, model2, obs2):
     return [n for n in order if n not in off], fitset
 
 
-def vector_values(order, descs, vec):
+# ---- quota: user-defined priors.  "Priors are expandable with new ones implemented through plugins or custom code": a fitted
+# parameter whose prior is a user's own Prior subclass (Optimizer.set_prior) that overrides prior(), the map from the sampled
+# value to the value handed to the model.  `custom` entries of a fit spec: kind 'ln' (sampled in natural-log space, the model
+# gets exp(value)) or 'affine' (sampled in scaled / shifted units, the model gets a*value + b), [lo, hi] the support in the
+# SAMPLED space, logmode = the subclass declares PriorMode.LOG (reported name 'log_<name>')
+_UP = {}
+
+
+def user_prior(cu):
+    from taurex.core.priors import Uniform, PriorMode
+    if not _UP:
+        class SampledLn(Uniform):
+            """a parameter sampled in natural-log space: the model gets exp(value)"""
+
+            def __init__(self, bounds, log_mode=False):
+                super().__init__(bounds=bounds)
+                if log_mode:
+                    self._prior_mode = PriorMode.LOG
+
+            def prior(self, value):
+                return math.exp(value)
+
+        class SampledScaled(Uniform):
+            """a parameter sampled in scaled / shifted units: the model gets a*value + b"""
+
+            def __init__(self, bounds, a, b, log_mode=False):
+                super().__init__(bounds=bounds)
+                self._a, self._b = float(a), float(b)
+                if log_mode:
+                    self._prior_mode = PriorMode.LOG
+
+            def prior(self, value):
+                return self._a * value + self._b
+        _UP.update(ln=SampledLn, affine=SampledScaled)
+    if cu['kind'] == 'ln':
+        return _UP['ln'](bounds=[cu['lo'], cu['hi']], log_mode=bool(cu.get('logmode')))
+    return _UP['affine'](bounds=[cu['lo'], cu['hi']], a=cu['a'], b=cu['b'], log_mode=bool(cu.get('logmode')))
+
+
+def gen_custom(rng, lo, hi, increasing=False):
+    """a user-defined prior whose MODEL values cover [lo, hi] (0 < lo < hi)"""
+    logmode = bool(rng.random() < 0.3)
+    if rng.random() < 0.5:
+        return dict(kind='ln', lo=math.log(lo), hi=math.log(hi), a=0.0, b=0.0, logmode=logmode)
+    a = float(rng.choice([0.2, 0.5, 2.0, 5.0, 1e3]) * (1 if (increasing or rng.random() < 0.6) else -1))
+    b = float(rng.uniform(-1.0, 1.0) * hi)
+    s0, s1 = (lo - b) / a, (hi - b) / a
+    return dict(kind='affine', lo=min(s0, s1), hi=max(s0, s1), a=a, b=b, logmode=logmode)
+
+
+def desc_of(f, default_mode):
+    """K.prior_desc, plus the user-defined priors: uniform on [lo, hi] of the sampled space; d[3] = reported with 'log_'"""
+    cu = f.get('custom')
+    if cu is not None:
+        return 0, float(cu['lo']), float(cu['hi']), bool(cu.get('logmode')), False
+    return K.prior_desc(f, default_mode)
+
+
+def customs_of(spec, order):
+    cus = {f['name']: f.get('custom') for f in spec['fit']}
+    return [cus.get(n) for n in order]
+
+
+def to_model(cu, d, x):
+    """the value a fitted parameter's prior hands to the model for the sampled value x: prior.prior(x) — x or 10**x for the
+    built-in classes, the user's own map for a user-defined prior"""
+    x = float(np.ravel(x)[0])
+    if cu is not None:
+        return math.exp(x) if cu['kind'] == 'ln' else cu['a'] * x + cu['b']
+    return (10 ** x) if d[3] else x
+
+
+def back_tok(cu, d):
+    if cu is not None:
+        return '2' if cu['kind'] == 'ln' else '3 %s %s' % (C.F(cu['a']), C.F(cu['b']))
+    return '1' if d[3] else '0'
+
+
+def make_optimizer(spec, model, obs):
+    """K.make_optimizer, then the user-defined priors of the case handed over with Optimizer.set_prior"""
+    opt = K.make_optimizer(spec, model, obs)
+    for f in spec['fit']:
+        if f.get('custom') is not None:
+            opt.set_prior(f['name'], user_prior(f['custom']))
+    return opt
+
+
+def vector_values(order, descs, vec, customs=None):
     """{parameter name: value in linear space} of one sampled vector (log-fitted entries are exponents)"""
-    return {n: ((10 ** float(np.ravel(v)[0])) if d[3] else float(np.ravel(v)[0])) for n, d, v in zip(order, descs, vec)}
+    customs = customs or [None] * len(order)
+    return {n: to_model(cu, d, v) for n, d, v, cu in zip(order, descs, vec, customs)}
 
 
 def constructed(spec, order, descs, vec):
     """the real forward model CONSTRUCTED at the sampled values (constructor arguments): independent of every setter the
     optimizer writes through and of whatever the fitted object has computed or cached before"""
-    return K.build_tm(K.tm_at(spec['model'], vector_values(order, descs, vec)))
+    return K.build_tm(K.tm_at(spec['model'], vector_values(order, descs, vec, customs_of(spec, order))))
 
 
 def add_edge_bins(rng, obs, lo, hi, delta):
@@ -451,7 +547,7 @@ def add_edge_bins(rng, obs, lo, hi, delta):
     return dict(obs, wl=wl, widths=widths, spectrum=spectrum, err=err), ends
 
 
-def gen_fit_spec(rng, k, big, tm=False):
+def gen_fit_spec(rng, k, big, tm=False, custom=False):
     base = K.gen_tm_spec(rng, k) if tm else K.gen_poly_spec(rng, k)
     spec = dict(base)
     spec.pop('cubes', None)
@@ -481,6 +577,22 @@ def gen_fit_spec(rng, k, big, tm=False):
             spec['fit'] = [f for f in spec['fit'] if f['name'] != 'planet_radius']
             spec['disable'] = ['planet_radius']
         spec['subset'] = ['as-generated', 'mass-without-radius', 'mass-and-radius', 'radius-off'][sub]
+    # quota (custom=True): 1-2 of the fitted parameters get a user-defined prior (a Prior subclass overriding prior()); the
+    # real model keeps the map increasing and leaves the parameters alone whose invalid-atmosphere quota depends on the cube
+    spec['user_priors'] = []
+    if custom:
+        cands = [f for f in spec['fit'] if f.get('bounds') is not None and f['bounds'][0] > 0 and f['bounds'][1] > f['bounds'][0]
+                 and f['name'] != 'offset' and (not tm or (f.get('mode') == 'linear' and not f['name'].startswith('kappa')))]
+        if not cands and tm:
+            mass = float(spec['model']['mass'])
+            if all(f['name'] != 'planet_mass' for f in spec['fit']):
+                spec['fit'].append(dict(name='planet_mass', mode='linear', bounds=[0.4 * mass, 2.5 * mass], prior=None))
+            cands = [f for f in spec['fit'] if f['name'] == 'planet_mass']
+        for i in rng.permutation(len(cands))[:int(rng.integers(1, 3))]:
+            f = cands[int(i)]
+            f['prior'] = None
+            f['custom'] = gen_custom(rng, float(f['bounds'][0]), float(f['bounds'][1]), increasing=tm)
+            spec['user_priors'].append(f['custom']['kind'] + (':log-mode' if f['custom']['logmode'] else ''))
     # quota (MultiNest): importance sampling, which switches mode separation off; the chains directory is shared by all
     # cases of a run, so files of earlier mode-separated runs are lying around, as in a re-used chains directory
     spec['importance'] = bool(spec.get('sampler') == 'multinest' and (k // 3) % 4 == 3)
@@ -506,7 +618,7 @@ def gen_fit_spec(rng, k, big, tm=False):
     model2, obs2 = K.build_pair(spec)
     order, fitset = fit_order(spec, model2, obs2)
     owner = {n: (model2 if n in model2.fittingParameters else obs2) for n in order}
-    descs = [K.prior_desc(fitset[n], owner[n].fittingParameters[n][4]) for n in order]
+    descs = [desc_of(fitset[n], owner[n].fittingParameters[n][4]) for n in order]
     modes = []
     wkind = WKINDS[(k // 3) % len(WKINDS)]
     redrawn = 0
@@ -576,8 +688,11 @@ def eval_fit(ctx, spec):
     model2, obs2 = K.build_pair(spec)
     order, fitset = fit_order(spec, model2, obs2)
     owner2 = {n: (model2 if n in model2.fittingParameters else obs2) for n in order}
-    descs = [K.prior_desc(fitset[n], owner2[n].fittingParameters[n][4]) for n in order]
-    sm = dict(K.small(spec), derived=spec['derived'], sizes=[len(m['weights']) for m in modes], wkind=spec.get('wkind'))
+    descs = [desc_of(fitset[n], owner2[n].fittingParameters[n][4]) for n in order]
+    customs = customs_of(spec, order)
+    for up in spec.get('user_priors') or []:
+        ctx.bucket('prior:user-defined:' + up)
+    sm = dict(K.small(spec), user_priors=[cu for cu in customs if cu is not None], derived=spec['derived'], sizes=[len(m['weights']) for m in modes], wkind=spec.get('wkind'))
     tm = spec['model']['kind'] == 'tm'
     if spec.get('subset'):
         ctx.bucket('fitted-subset:' + spec['subset'])
@@ -592,7 +707,7 @@ def eval_fit(ctx, spec):
     random.seed(12345)
     try:
         with contextlib.redirect_stdout(io.StringIO()):
-            opt = K.make_optimizer(spec, model, obs)
+            opt = make_optimizer(spec, model, obs)
             for nm in spec.get('disable') or []:
                 opt.disable_fit(nm)
             for d in spec['derived']:
@@ -615,8 +730,8 @@ def eval_fit(ctx, spec):
     binner2 = obs2.create_binner()
 
     def write(vec):
-        for n, d, v in zip(order, descs, vec):
-            owner2[n][n] = (10 ** float(np.ravel(v)[0])) if d[3] else float(np.ravel(v)[0])
+        for n, d, v, cu in zip(order, descs, vec, customs):
+            owner2[n][n] = to_model(cu, d, v)
 
     for j, mode in enumerate(modes):
         s = sol['solution%d' % j]
@@ -664,6 +779,8 @@ def eval_fit(ctx, spec):
             if not any(np.unique(S[:, i]).size < n for i in range(nd)):
                 ctx.check_close('median vector vs Posterior.medianVector', medvec, d.list(), sm, rel=1e-9,
                                 abs_=1e-9 * float(np.max(np.abs(S))))
+        # ---- from the sampled space to the model: what update_model hands the model for the MAP, the median and a sample
+        check_model_point(ctx, opt, model, obs, order, descs, customs, [mapvec, medvec, S[0], S[-1]], dict(sm, mode=j))
         # ---- stored spectrum = forward model at the MAP binned to the observation
         if len(modes) == 1 or True:
             write(mapvec)
@@ -687,7 +804,7 @@ def eval_fit(ctx, spec):
                     ctx.violation('spectrum-not-at-map:constructed:' + where,
                                   'stored solution spectrum is not the spectrum of a forward model constructed at the MAP '
                                   '(binned to the observation)', case,
-                                  dict(mode=j, map=vector_values(order, descs, mapvec), stored=got[:4], expected=exp3[:4]))
+                                  dict(mode=j, map=vector_values(order, descs, mapvec, customs), stored=got[:4], expected=exp3[:4]))
             if 'binned_spectrum' in sp and spec['obs']['type'] != 'grid':
                 check_binned(ctx, where, binner2, nat, got, case, dict(sm, mode=j))
             # ---- stored profiles = those of the median solution
@@ -712,7 +829,7 @@ def eval_fit(ctx, spec):
                             ctx.violation('profiles-not-at-median:constructed:' + where,
                                           'stored profile %s is not that of a forward model constructed at the median '
                                           'solution' % pk, case,
-                                          dict(mode=j, median=vector_values(order, descs, medvec),
+                                          dict(mode=j, median=vector_values(order, descs, medvec, customs),
                                                stored=np.ravel(s['Profiles'][pk])[:3], expected=np.ravel(pv)[:3]))
                 ctx.bucket('profiles-checked')
         # ---- derived traces: one entry per sample, in sample order; same quantile rule
@@ -753,7 +870,7 @@ def eval_fit(ctx, spec):
                     ctx.violation('derived-trace-order:constructed:' + where,
                                   'derived trace entry i is not the derived value of a forward model constructed at sample i',
                                   case, dict(derived=dname, first_bad=bad, stored=tr[:5], expected=exp3[:5],
-                                             sample=vector_values(order, descs, S[bad])))
+                                             sample=vector_values(order, descs, S[bad], customs)))
                     continue
             if float(np.max(np.abs(exp_tr))) > 0:
                 check_summary(ctx, where + ':derived', e, exp_tr, W, dict(sm, derived=dname, mode=j))
@@ -771,6 +888,31 @@ def eval_fit(ctx, spec):
         ctx.bucket('weights:%s' % spec.get('wkind'))
         ctx.bucket('size:' + size_class(n))
     ctx.bucket('modes:%d' % len(modes))
+
+
+def check_model_point(ctx, opt, model, obs, order, descs, customs, vecs, sm):
+    """Optimizer.update_model of the optimizer that produced the solution, on sampled vectors: the values that reach the
+    parameters (read back through their getters) against Posterior.modelPoint — entry i is prior_i.prior(v_i), the map of
+    that parameter's own prior object (x / 10**x for the built-in classes, the user's map for a user-defined prior)"""
+    owner = {n: (model if n in model.fittingParameters else obs) for n in order}
+    vecs = [[float(np.ravel(x)[0]) for x in v] for v in vecs]
+    if any(len(v) != len(order) for v in vecs) or len(opt.fitting_parameters) != len(order):
+        return
+    d = ctx.model().call('c09.modelpoint', C.L(list(zip(customs, descs)), lambda cd: back_tok(cd[0], cd[1])), C.LL(vecs))
+    mp = d.list(d.list)
+    for v, m in zip(vecs, mp):
+        try:
+            opt.update_model(v)
+            got = [float(owner[n].fittingParameters[n][2]()) for n in order]
+        except Exception as e:
+            ctx.mismatch('update_model on a stored vector', sm, dict(error=repr(e), vector=v))
+            continue
+        ctx.check_close('update_model: values handed to the model vs Posterior.modelPoint', got, m, dict(sm, vector=v),
+                        rel=1e-12, abs_=1e-300)
+        own = [float(p.prior(x)) for p, x in zip(opt.fitting_priors, v)]
+        ctx.check_close("each prior's own prior(value) vs Posterior.Back.apply", own, m, dict(sm, vector=v), rel=1e-12,
+                        abs_=1e-300)
+    ctx.bucket('update_model-vs-modelPoint')
 
 
 def check_binned(ctx, where, binner, nat, stored, case, sm):
@@ -952,6 +1094,11 @@ def run(ctx):
             eval_fit(ctx, gen_fit_spec(rng, k, big))
         for k in range(ctx.n(90, 800)):
             eval_fit(ctx, gen_fit_spec(rng, k, big, tm=True))
+        # user-defined priors (Prior subclasses overriding prior(), set with set_prior): all three samplers, both models
+        for k in range(ctx.n(75, 600)):
+            eval_fit(ctx, gen_fit_spec(rng, k, big, custom=True))
+        for k in range(ctx.n(12, 60)):
+            eval_fit(ctx, gen_fit_spec(rng, k, big, tm=True, custom=True))
         malformed(ctx)
     finally:
         K.cleanup()
